@@ -25,5 +25,6 @@ CONSTANTS
   ObjOf <- objB
   ActOf <- actB
   Raws <- rawB
-INVARIANTS TypeOK AtMostOneOutcome OwnResult ExecOnceIfOk ExecAtMostOnce PostAtMostOnce PostNoResponse OnlyCallAndPostExecute ErrorIsOwn
+  Deviations <- NoDev
+INVARIANTS TypeOK AtMostOneOutcome OwnResult ExecOnceIfOk ExecAtMostOnce PostAtMostOnce PostNoResponse FramesOwed OnlyCallAndPostExecute ErrorIsOwn
 CHECK_DEADLOCK FALSE
